@@ -78,6 +78,8 @@ class Scan:
             if k in ("ArraySubscriptExpr",) or (k == "UnaryOperator" and e.get("opcode") == "*"):
                 inner = strip(e["inner"][0])
                 if inner.get("kind") == "MemberExpr":
+                    if "atomic" in (inner.get("type", {}).get("qualType", "") + inner.get("type", {}).get("desugaredQualType", "")):
+                        return      # std::atomic pointee: synchronised by construction
                     out.append(("pointee", inner.get("name")))
                 elif inner.get("kind") == "DeclRefExpr":
                     rd = inner.get("referencedDecl", {})
@@ -234,6 +236,15 @@ def extract(log=lambda *a: None):
     return table
 
 
+def claimed(t):
+    """C18's operation set: const member functions and copy constructors of domain classes, except the random draws (they write the
+    caller's generator, which the property does not list) and seeding."""
+    if not (t["const"] or t["copyctor"]):
+        return False
+    n = t["fn"].lower()
+    return not ("random" in n or "seeding" in n)
+
+
 def lean_str(s):
     return '"' + s.replace("\\", "\\\\").replace('"', '\\"') + '"'
 
@@ -246,13 +257,14 @@ def emit(table):
              "   Per instantiated member function of a domain class (and transitively everything it calls): the non-const static storage it",
              "   touches, the data members a const function writes, the pointees it writes through pointer members. -/",
              "namespace Givaro.Gen.Footprint", "",
-             "structure Row where", "  cls : String", "  fn : String", "  isConst : Bool", "  isCopyCtor : Bool", "  statics : List String",
+             "structure Row where", "  cls : String", "  fn : String", "  isConst : Bool", "  isCopyCtor : Bool", "  claimed : Bool", "  statics : List String",
              "  constWrites : List String", "  pointeeWrites : List String", "deriving Repr, DecidableEq", "",
              "def rows : List Row := ["]
     body = []
     for t in table:
-        body.append("  ⟨%s, %s, %s, %s, [%s], [%s], [%s]⟩" % (
+        body.append("  ⟨%s, %s, %s, %s, %s, [%s], [%s], [%s]⟩" % (
             lean_str(t["cls"]), lean_str(t["fn"] + " : " + t["sig"][:80]), "true" if t["const"] else "false", "true" if t["copyctor"] else "false",
+            "true" if claimed(t) else "false",
             ", ".join(lean_str(x) for x in t["statics"]), ", ".join(lean_str(x) for x in t["const_writes"]),
             ", ".join(lean_str(x) for x in t["pointee_writes"])))
     lines.append(",\n".join(body))
